@@ -1,7 +1,9 @@
 import MindsVerif.Model.LitSeq
-/-! Line protocol driver for sequences of string constants (C01, L1 in sequence).
+/-! Line protocol driver for sequences of string constants and the two atom printers (C01, L1).
 input : <v1> <sep1> <v2> <sep2> …     every argument a string written as comma separated code points, `-` = empty
-output: <printed text> | [<value>|<value>|…]      or      <printed text> | none -/
+output: <printed text> | [<value>|<value>|…]      or      <printed text> | none
+input : P <v>            output: <Parameter.get_string model>
+input : V <0|1> <v>      output: <Variable.get_string model> | <lexVariable of it: sys value rest | none> -/
 open MindsVerif MindsVerif.LitSeq
 
 def dec (s : String) : List Char :=
@@ -14,14 +16,25 @@ def pairs : List String → List (List Char × List Char)
   | v :: s :: rest => (dec v, dec s) :: pairs rest
   | _ => []
 
-def handle (line : String) : String :=
-  let ws := (line.trimAscii.toString.splitOn " ").filter (· ≠ "")
+def handleSeq (ws : List String) : String :=
   let items := pairs ws
   let printed := printSeq items
   let res := match readSeq (items.map (·.2)) printed with
     | some vs => "[" ++ "|".intercalate (vs.map enc) ++ "]"
     | none => "none"
   enc printed ++ " | " ++ res
+
+def handle (line : String) : String :=
+  let ws := (line.trimAscii.toString.splitOn " ").filter (· ≠ "")
+  match ws with
+  | ["P", v] => enc (Lex.parameterToString (dec v))
+  | ["V", sys, v] =>
+    let txt := Lex.variableToString (sys == "1") (dec v)
+    let back := match Lex.lexVariable txt with
+      | some (isSys, value, rest) => s!"{if isSys then 1 else 0} {enc value} {enc rest}"
+      | none => "none"
+    enc txt ++ " | " ++ back
+  | _ => handleSeq ws
 
 partial def loop (h : IO.FS.Stream) (out : IO.FS.Stream) : IO Unit := do
   let line ← h.getLine
